@@ -1,11 +1,16 @@
 //! Harness binary `h_gs_a <PROP> --seed S --tier T [--count N] [--replay F]`.
 //! One module per property (`cNN.rs`, `pub fn run(args: &hcore::Args, out: &mut hcore::Out)`).
 
+mod c31;
+mod c34;
+
 fn main() {
     let args = hcore::Args::parse();
     hcore::quiet_panics();
     let mut out = hcore::Out::new();
     match args.prop.as_str() {
+        "C31" => c31::run(&args, &mut out),
+        "C34" => c34::run(&args, &mut out),
         p => {
             let _ = &mut out;
             eprintln!("h_gs_a: unknown property {p}");
